@@ -6,9 +6,9 @@ import c03s as S
 from common import Report, log
 
 MANIFEST = dict(
-    technique='Coq proof that a function-by-function Gallina model of the expression parser maps every rendering of every reference expression (all parenthesisation choices) to the prescribed tree + model-vs-code correspondence on rendered, corrupted and unsupported token lists + prescribed-tree oracle (generator knows the tree) on the whole statement surface',
-    text='Spec/RefGrammar.v defines the reference expressions (OR < AND < NOT < comparison/IS NULL/IN/BETWEEN/LIKE < || < + - < * / % < :: < primary), their token renderings for every choice of redundant parentheses, and Model/Expr.v the prescribed tree ast_of. Model/ExprParse.v mirrors expressions.go function by function (cursor, depth counter, quirks, defect switches). Theorem C03_parse_render_expr_partial: for every reference expression of the proved sub-surface (identifiers, literals, placeholders, all binary operators of the ladder, NOT, IS [NOT] NULL, [NOT] IN (list), [NOT] BETWEEN, [NOT] LIKE/ILIKE, :: and CAST with plain type names, any parentheses), every parenthesisation, every admissible follow token list, every depth limit and every nesting within it the model parser returns exactly (ast_of e, rest) - precedence, left associativity, parenthesis override, everything written appears, nothing else appears, never rejected, in one statement, by induction with one lemma per ladder level; function calls, CASE, tuples and type names with arguments are modelled but not yet covered by the induction (partial). Refuted-witness theorems for the two defect switches of the pinned tree (both repaired in /repo). The model is tied to the code on every run: the real parseExpression (hook) and the model are run on the same token lists (rendered, corrupted, unsupported) and must agree on accept/reject, consumed tokens and whole tree. Independently, the real parser output for generated statements of the whole documented surface (queries, DML, MERGE, DDL) is compared field by field with the tree the generator prescribes.',
-    note=common.BASE_NOTE + "Lexing is C04's theorem: C03 checks per run that the real tokenizer+converter produce the token list the renderer states. The statement level (SELECT/DML/DDL clauses) is covered by the prescribed-tree oracle only (no statement theorem yet); ASCII-only case folding in the model.",
+    technique='Coq proofs that function-by-function Gallina models of the expression parser and of the statement parser map every rendering of every reference expression / reference statement (all parenthesisation choices) to the prescribed tree + model-vs-code correspondence for parseExpression and parseStatement on rendered, corrupted and unsupported token lists + prescribed-tree oracle (generator knows the tree) on the whole statement surface',
+    text='Spec/RefGrammar.v defines the reference expressions (OR < AND < NOT < comparison/IS NULL/IN/BETWEEN/LIKE < || < + - < * / % < :: < primary; function calls, CASE, CAST, tuples), their token renderings for every choice of redundant parentheses, and Model/Expr.v the prescribed tree ast_of; Spec/RefStmt.v the reference statements (SELECT with DISTINCT, aliases, FROM lists, all joins with ON/USING, WHERE, GROUP BY, HAVING, ORDER BY with direction and NULLS, LIMIT, OFFSET; set operations; WITH [RECURSIVE] with column lists and [NOT] MATERIALIZED; INSERT with VALUES rows or a query and RETURNING; UPDATE; DELETE), their renderings and ast_of_stmt. Model/ExprParse.v mirrors expressions.go and Model/StmtParse.v mirrors parseStatement / select.go / cte.go / the cores of dml.go function by function (cursor, depth counter, quirks, defect switches). Theorem C03_parse_render_expr_ext: for EVERY reference expression, every parenthesisation, every admissible follow token list, every depth limit and every nesting within it the model parser returns exactly (ast_of e, rest) - precedence, left associativity, parenthesis override, everything written appears, nothing else appears, never rejected, in one statement, by induction with one lemma per production. Theorems C03_parse_render_select_partial and C03_parse_render_stmt_partial: the same equation for parseStatement on every reference SELECT / every reference statement, every parenthesisation of every expression in it, by one lemma per clause composed along the token list (partial: the clauses outside Spec/RefStmt.v are listed in Props/C03.v). Refuted-witness theorems for the defect switches (two repaired in /repo, one - an alias without AS after a bare column - pinned by the project tests and kept as known finding). The models are tied to the code on every run: the real parseExpression / parseStatement (hooks) and the models are run on the same token lists (rendered, corrupted, unsupported) and must agree on accept/reject, consumed tokens and whole tree; Spec renderings and prescribed trees are cross-checked against the generator and the real tokenizer. Independently, the real parser output for generated statements of the whole documented surface (queries, DML, MERGE, DDL) is compared field by field with the tree the generator prescribes.',
+    note=common.BASE_NOTE + "Lexing is C04's theorem: C03 checks per run that the real tokenizer+converter produce the token list the renderer states. Clauses outside the reference grammar of Spec/RefStmt.v (DISTINCT ON, derived tables, LATERAL, grouping sets, FETCH, FOR, sub-query expressions, window functions, ON CONFLICT, MERGE, DDL) are covered by the prescribed-tree oracle and, where modelled, the correspondence only; ASCII-only case folding in the model; models.TokenType numbers of statement keywords are written in Spec/RefStmt.v (drift shows as a correspondence disagreement).",
     design='6/C03')
 
 DF_NONE = "(DFlags false false)"
@@ -456,7 +456,7 @@ def run(tier):
         rp.violation({"kind": "proof", "theorem": "Proofs/ExprParseP.v / Props/C03.v", "log": (logs["inst"] + logs["props"])[-3000:]},
                      "props_c03", no_input=True)
     rp.assumptions = ["lexing (text -> tokens) is C04's theorem; per run the real tokenizer+converter output is compared with the renderer's token list",
-                      "theorem covers the sub-surface `proved` (see Props/C03.v); omitted productions and the statement level are covered by correspondence and the prescribed-tree oracle only",
+                      "the theorems cover the reference grammars of Spec/RefGrammar.v and Spec/RefStmt.v (see Props/C03.v for the omitted clauses); the rest of the documented surface is covered by correspondence and the prescribed-tree oracle only",
                       "model case folding is ASCII-only (Go uses Unicode simple folding for EqualFold/ToUpper on keyword-like literals)"]
     try:
         cases, viol, tokbad = run_expressions(rp, tier, rng, kf)
